@@ -71,6 +71,12 @@ impl StreamHandle {
 
 impl PayloadStream for StreamHandle {
     fn open(&mut self) -> StreamResult<()> {
+        // The streaming loop owns the receive channel and keeps its lock for its whole life:
+        // waiting for the lock here would block until a stop that the blocked caller can never
+        // issue. The channel is in use, so there is nothing to open.
+        if self.is_loop_running() {
+            return Ok(());
+        }
         unwrap_or_poisoned!(self.inner.lock())?.open().map_err(|e| {
             error!(?e);
             e.into()
